@@ -34,6 +34,8 @@ structure Obj where
   fdtId : Option Nat := none
   cc : Option CacheControl := none
   cache : List Pkt := []                -- `Vec` used as a stack: head = most recently cached
+  cacheSize : Nat := 0
+  nbBlocks : Nat := 0
   wsess : WSess := .none
   hasBw : Bool := false                 -- `block_writer.is_some()`
   bwSbn : Nat := 0                      -- `BlockWriter::sbn`
@@ -51,12 +53,12 @@ def nbBlock (o : Obj) : Nat := o.blocksOffset + o.blocks.length
 
 /-- `complete` -/
 def complete (o : Obj) : Obj × List WEv :=
-  let o := { o with st := .completed, blocks := [], cache := [] }
+  let o := { o with st := .completed, blocks := [], cache := [], cacheSize := 0 }
   if o.wsess ≠ .none then ({ o with wsess := .closed }, [.complete]) else (o, [])
 
 /-- `error(.., interrupted)` -/
 def error (o : Obj) (interrupted : Bool) : Obj × List WEv :=
-  let o := { o with st := if interrupted then .interrupted else .error, blocks := [], cache := [] }
+  let o := { o with st := if interrupted then .interrupted else .error, blocks := [], cache := [], cacheSize := 0 }
   if o.wsess ≠ .none then
     ({ o with wsess := .error }, [if interrupted then .interrupted else .error])
   else (o, [])
@@ -69,7 +71,7 @@ def initBlocksPartitioning (o : Obj) : Obj :=
     match Partition.blockPartitioning oti.msbl l oti.esl with
     | .error _ => o
     | .ok (aL, aS, nL, n) =>
-      { o with aLarge := aL, aSmall := aS, nbALarge := nL, blocks := List.replicate (min n 2048) {} }
+      { o with aLarge := aL, aSmall := aS, nbALarge := nL, nbBlocks := n, blocks := List.replicate (min n 2048) {} }
   | _, _ => o
 
 /-- `init_object_writer` (builder answers `StoreObject`, `open` succeeds) -/
@@ -111,6 +113,7 @@ def pushToBlock2 (o : Obj) (p : Pkt) : Except Obj (Obj × List WEv) :=
   match p.pid, o.oti, o.tlen with
   | some (sbn, esi), some _oti, some l =>
     if l = 0 then .ok (complete o) else
+    if sbn ≥ o.nbBlocks then .ok (o, []) else
     if sbn < o.blocksOffset then .ok (o, []) else
     let off := sbn - o.blocksOffset
     if off ≥ o.blocks.length ∧ off > 2 * 2048 then .error { o with st := .error } else
@@ -155,7 +158,9 @@ def replayCache : List Pkt → Obj → Obj × List WEv
 
 /-- `push_from_cache` -/
 def pushFromCache (o : Obj) : Obj × List WEv :=
-  if nbBlock o = 0 then (o, []) else replayCache o.cache o
+  if nbBlock o = 0 then (o, []) else
+  let (o, e) := replayCache o.cache o
+  ({ o with cacheSize := 0 }, e)
 
 /-- `push` -/
 def push (o : Obj) (p : Pkt) : Obj × List WEv :=
@@ -169,12 +174,14 @@ def push (o : Obj) (p : Pkt) : Obj × List WEv :=
   let o := initBlocksPartitioning o
   let (o, e1) := initObjectWriter o
   let (o, e2) := pushFromCache o
+  -- the writer refused the object / the object ended while the cache was replayed
+  if o.st ≠ .receiving then (o, e1 ++ e2) else
   if o.oti.isNone then
-    -- `cache(pkt)`: `cache_size` is never updated (D11), so the limit only bites when it is 0
-    if 0 ≥ o.maxCache then
+    -- `cache(pkt)`: refuse when the cache already holds `max_size_allocated` bytes or more
+    if o.cacheSize ≥ o.maxCache then
       let (o, e3) := error o false
       (o, e1 ++ e2 ++ e3)
-    else ({ o with cache := p :: o.cache }, e1 ++ e2)
+    else ({ o with cache := p :: o.cache, cacheSize := o.cacheSize + p.dlen }, e1 ++ e2)
   else
     match pushToBlock o p with
     | .error o' =>
